@@ -50,9 +50,11 @@ type c19Broker struct {
 	gate    chan struct{} // when non-nil the broker does not return from a write until the gate is closed
 }
 
-func c19Writer(b *c19Broker) *KafkaWriter {
+func c19Writer(b *c19Broker) *KafkaWriter { return c19WriterCap(b, 100) }
+
+func c19WriterCap(b *c19Broker, capacity int) *KafkaWriter {
 	w := &KafkaWriter{}
-	w.toBatchMessagesChan = make(chan kafka.Message, 100)
+	w.toBatchMessagesChan = make(chan kafka.Message, capacity)
 	w.messageBuffer = NewFifoBuffer[kafka.Message]()
 	w.Writer = &kafka.Writer{}
 	w.Topic = "verif"
@@ -145,6 +147,22 @@ func HarnessProducersDoNotWaitForBroker() {
 	for _, k := range b.keys {
 		vrt.Assert(k == "task-1", "task-events-are-keyed-by-task-id")
 	}
+	b.mu.Unlock()
+}
+
+// A burst larger than the hand-over channel: the producer may have to wait for the batching loop (never for the
+// broker), and nothing of the burst is lost.
+//verif:entry HarnessBurstFillsTheChannel unwind=10 preempt=2 reach=closed replace=google.golang.org/protobuf/proto.Marshal=>C19Marshal stub=(*github.com/segmentio/kafka-go.Writer).Close
+func HarnessBurstFillsTheChannel() {
+	b := &c19Broker{}
+	w := c19WriterCap(b, 1)
+	for i := 0; i < 3; i++ {
+		w.WriteEvent(&pb.Ev_RoleEvent{EnvironmentId: "envA", Name: "R" + string(rune('0'+i))})
+	}
+	w.Close()
+	vrt.Reach("closed")
+	b.mu.Lock()
+	vrt.Assert(len(b.written) == 3 && b.written[0] == "R0" && b.written[1] == "R1" && b.written[2] == "R2", "burst-larger-than-the-channel-is-delivered-completely-and-in-order")
 	b.mu.Unlock()
 }
 
